@@ -16,7 +16,7 @@ func init() {
 		Patterns: []string{"./pkg/router", "./pkg/upstream/cluster"},
 		Explanation: "Difference reasoning on the SSA of RouteRuleImplBase.ClusterName: the draw x comes from Intn(total) (0 <= x < total); the cumulative scan must be one of two exact idioms (subtract-then-test `x-w < 0`, or test-then-subtract `x < w`), for which the loop invariant x >= 0 holds on the continue edge and w >= 1 is implied on the return edge, so entry k owns exactly the draws cum(k-1) <= x < cum(k), a zero-weight entry is unreachable and storage order is irrelevant. " +
 			"(R2) the draw range is the sum of exactly the weights stored in the scanned map (one addition per inserted entry, same weight value, both results stored by the one constructor, no other writer). " +
-			"(R3) the EDF scheduler's deadline update has the shape deadline += 1/weight with currentTime advanced to the served deadline and a min-heap on (deadline, queuedTime) — necessary for the bounded-lag property, which itself (a numeric inequality over float deadlines) is not decided. (R3, stale) no statically known writer of edfEntry.deadline runs between the load of the served entry's deadline and the store that advances it. (R3, all hosts) the Range callback of EdfLoadBalancer.refresh calls the scheduler's Add unconditionally for every host.",
+			"(R3) the EDF scheduler's deadline update has the shape deadline += 1/weight with currentTime advanced to the served deadline and a min-heap on (deadline, queuedTime) — necessary for the bounded-lag property, which itself (a numeric inequality over float deadlines) is not decided. (R3, stale) no statically known writer of edfEntry.deadline runs between the load of the served entry's deadline and the store that advances it. (R3, all hosts) the Range callback of EdfLoadBalancer.refresh calls the scheduler's Add unconditionally for every host. (R3, round 6) every comparison of elements[c+1] with elements[c] in the EDF heap is dominated by c+1 < N, N the heap's size field or a parameter every caller binds to it; hostWeightsAreEqual compares every host (true only on the loop's exit edge); WRR hostWeight is fixHostWeight(float64(item.Weight())); fixHostWeight is the identity between its bounds.",
 		Run: runC06,
 	})
 }
@@ -24,6 +24,7 @@ func init() {
 func runC06(c *Ctx) {
 	defer c06AllHostsScheduled(c)
 	defer c06WeightsReachScheduler(c)
+	defer c06HeapChildren(c)
 	c.Rule("C06.R1", "cumulative-weight scan uses an exact idiom (strict comparison)", 4)
 	c.Rule("C06.R2", "draw range equals the sum of the scanned weights; single writer", 4)
 	c.Rule("C06.R3", "EDF deadline update shape: deadline += 1/weight from the current deadline, time advances to served deadline, min-heap order; every host scheduled", 7)
@@ -649,5 +650,115 @@ func c06WeightsReachScheduler(c *Ctx) {
 			good = lo && hi
 		}
 		c.Check("C06.R3", funcKey(fn)+":clamp-identity-inside", fn.Pos(), good, "returns the weight itself between the two bounds", "fixHostWeight does not return its argument unchanged between the minimum and maximum host weight: configured weights are distorted before they reach the scheduler")
+	}
+}
+
+// c06HeapChildren (R3): the heap's sift-down looks at the right child whenever there is one.
+// EDF order is kept by a binary heap; every routine that picks "the smaller child" of a node compares elements[c+1] with
+// elements[c]. It may skip the right child only when it does not exist, i.e. when c+1 >= size. A bound of size-1 (or any
+// other value) silently leaves out the last element: with an odd number of entries a host with an earlier deadline stays
+// below a later one, one host is served in bursts and the bounded-lag property is lost. Clause: every comparison of
+// elements[c+1] with elements[c] in the heap is dominated by `c+1 < N` where N is the heap's size field, or a parameter
+// that every caller in the package binds to it.
+func c06HeapChildren(c *Ctx) {
+	pkg := "pkg/upstream/cluster"
+	var sizeLike func(v ssa.Value, fn *ssa.Function, d int) bool
+	sizeLike = func(v ssa.Value, fn *ssa.Function, d int) bool {
+		if d > 3 {
+			return false
+		}
+		if _, f, _, ok := loadedField(v); ok && f == "size" {
+			return true
+		}
+		if p, ok := v.(*ssa.Parameter); ok {
+			idx := -1
+			for i, q := range fn.Params {
+				if q == p {
+					idx = i
+				}
+			}
+			n := 0
+			for _, g := range c.PkgFuncs(pkg) {
+				for _, cs := range callsIn(g, true, func(cc *ssa.CallCommon) bool { return cc.StaticCallee() == fn }) {
+					n++
+					if idx < 0 || idx >= len(cs.Instr.Common().Args) || !sizeLike(cs.Instr.Common().Args[idx], cs.Instr.Parent(), d+1) {
+						return false
+					}
+				}
+			}
+			return n > 0
+		}
+		return false
+	}
+	plusOne := func(v ssa.Value) (ssa.Value, bool) {
+		if bo, ok := v.(*ssa.BinOp); ok && bo.Op == token.ADD {
+			if k, isK := constInt(bo.Y); isK && k == 1 {
+				return bo.X, true
+			}
+		}
+		return nil, false
+	}
+	elemIndex := func(v ssa.Value) (ssa.Value, bool) {
+		u, ok := v.(*ssa.UnOp)
+		if !ok {
+			return nil, false
+		}
+		ia, ok := u.X.(*ssa.IndexAddr)
+		if !ok {
+			return nil, false
+		}
+		if _, f, _, okf := loadedField(ia.X); !okf || f != "elements" {
+			return nil, false
+		}
+		return ia.Index, true
+	}
+	n := 0
+	ord := ordCounter{}
+	for _, fn := range c.PkgFuncs(pkg) {
+		if fn.Signature.Recv() == nil || !strings.HasSuffix(typeName(fn.Signature.Recv().Type()), "cluster.edfHeap") {
+			continue
+		}
+		forEachInstr(fn, false, func(f *ssa.Function, in ssa.Instruction) {
+			call, ok := in.(*ssa.Call)
+			if !ok || call.Common().StaticCallee() == nil || call.Common().StaticCallee().Name() != "edfEntryLess" || len(call.Common().Args) != 2 {
+				return
+			}
+			i0, ok0 := elemIndex(call.Common().Args[0])
+			i1, ok1 := elemIndex(call.Common().Args[1])
+			if !ok0 || !ok1 {
+				return
+			}
+			var right ssa.Value
+			if base, isP := plusOne(i0); isP && base == i1 {
+				right = i0
+			} else if base, isP := plusOne(i1); isP && base == i0 {
+				right = i1
+			}
+			if right == nil {
+				return
+			}
+			n++
+			key := ord.next(f, "right-child-bound")
+			base, _ := plusOne(right)
+			good, why := false, "the comparison with the right child is not guarded by `child+1 < size`"
+			for _, g := range guardsAt(call.Block()) {
+				bo, isB := g.Cond.(*ssa.BinOp)
+				if !isB || bo.Op != token.LSS || !g.True {
+					continue
+				}
+				if b2, isP := plusOne(bo.X); !isP || b2 != base {
+					continue
+				}
+				if sizeLike(bo.Y, f, 0) {
+					good, why = true, "right child examined whenever child+1 < size"
+				} else {
+					why = "the right child is examined only when child+1 < " + bo.Y.String() + ", which is not the heap's size"
+				}
+			}
+			c.Check("C06.R3", key, call.Pos(), good, why, "a sift-down of the EDF heap can leave out an existing right child ("+why+"): with some heap sizes an entry with an earlier deadline stays below a later one, so one host is served in bursts while another waits - the bounded-lag guarantee of weighted round-robin is lost")
+		})
+	}
+	if n < 1 {
+		c.Unresolved("C06.R3", "a smaller-child selection (elements[c+1] vs elements[c]) in the EDF heap")
 	}
 }
